@@ -132,7 +132,7 @@ def proj_addr(e):
     if k == "cpoll":
         t = e.split(" ")
         return "cpoll %s %s" % (t[1], t[4] if len(t) > 4 else "?")
-    return e if k == "cdrop" else None
+    return e if k in ("cdrop", "vtbad") else None
 
 
 def proj_up(e):
